@@ -158,21 +158,25 @@ def call_variants(ctx, fn, H, kw, has_sparse=True, n_index=1):
     return ref, problems
 
 
+# public function name -> (callable, has a `sparse` parameter, number of index dicts returned with index=True)
 FUNCS = {
-    "incidence": (xgi.incidence_matrix, True, 2),
-    "adjacency": (xgi.adjacency_matrix, True, 1),
-    "degree": (xgi.degree_matrix, False, 1),
-    "profile": (xgi.intersection_profile, True, 1),
-    "clique": (xgi.clique_motif_matrix, True, 1),
+    "incidence_matrix": (xgi.incidence_matrix, True, 2),
+    "adjacency_matrix": (xgi.adjacency_matrix, True, 1),
+    "degree_matrix": (xgi.degree_matrix, False, 1),
+    "intersection_profile": (xgi.intersection_profile, True, 1),
+    "clique_motif_matrix": (xgi.clique_motif_matrix, True, 1),
     "laplacian": (xgi.laplacian, True, 1),
-    "multiorder": (xgi.multiorder_laplacian, True, 1),
-    "normalized": (xgi.normalized_hypergraph_laplacian, True, 1),
-    "tensor": (xgi.adjacency_tensor, False, 1),
+    "multiorder_laplacian": (xgi.multiorder_laplacian, True, 1),
+    "normalized_hypergraph_laplacian": (xgi.normalized_hypergraph_laplacian, True, 1),
+    "adjacency_tensor": (xgi.adjacency_tensor, False, 1),
 }
+SHORT = {"incidence_matrix": "incidence", "adjacency_matrix": "adjacency", "degree_matrix": "degree",
+         "intersection_profile": "profile", "clique_motif_matrix": "clique", "laplacian": "laplacian",
+         "multiorder_laplacian": "multiorder", "normalized_hypergraph_laplacian": "normalized", "adjacency_tensor": "tensor"}
 
 
 def kwargs_of(c):
-    f = c["f"]
+    f = SHORT[c["f"]]
     if f in ("incidence", "degree", "profile"):
         return {"order": c["order"]}
     if f == "adjacency":
@@ -196,7 +200,7 @@ _CTX = [None]
 
 def impl(c):
     fn, has_sparse, n_index = FUNCS[c["f"]]
-    H = build(c["net"], c.get("weights") if c["f"] == "normalized" else None)
+    H = build(c["net"], c.get("weights") if c["f"] == "normalized_hypergraph_laplacian" else None)
     ref, problems = call_variants(_CTX[0], fn, H, kwargs_of(c), has_sparse, n_index)
     ref = dict(ref)
     ref["problems"] = problems
@@ -284,7 +288,7 @@ def pred(c, r, rng=None):
     import random as _random
     rng = rng or _random.Random(jhash(c))
     fails = list(r.get("problems", []))
-    f = c["f"]
+    f = SHORT[c["f"]]
     nodes, edges = members_of(c)
     N = len(nodes)
     if f in ("incidence", "adjacency", "degree", "profile", "clique", "tensor"):
@@ -517,7 +521,7 @@ def compare(c, r, m):
         return False
     if r["out"] != "ok":
         return True
-    f = c["f"]
+    f = SHORT[c["f"]]
     mat = r["mat"]
     if f == "degree":
         return r["shape"] == [len(m["vec"])] and all(x == v for x, v in zip(mat, m["vec"])) and r["dicts"] == [m["rows"]]
@@ -569,33 +573,33 @@ def grid(rng, net, full=True):
     """every option combination of every function for one network (sparse/index are expanded inside impl)"""
     cases = []
     for o in ORDERS:
-        cases.append({"f": "incidence", "net": net, "order": o})
-        cases.append({"f": "degree", "net": net, "order": o})
-        cases.append({"f": "profile", "net": net, "order": o})
+        cases.append({"f": "incidence_matrix", "net": net, "order": o})
+        cases.append({"f": "degree_matrix", "net": net, "order": o})
+        cases.append({"f": "intersection_profile", "net": net, "order": o})
         for s in (1, 2, 3):
             for w in (False, True):
-                cases.append({"f": "adjacency", "net": net, "order": o, "s": s, "weighted": w})
-    cases.append({"f": "clique", "net": net})
+                cases.append({"f": "adjacency_matrix", "net": net, "order": o, "s": s, "weighted": w})
+    cases.append({"f": "clique_motif_matrix", "net": net})
     for d in (0, 1, 2, 3):
         for resc in (False, True):
             cases.append({"f": "laplacian", "net": net, "order": d, "rescale": resc})
         if len(net["nodes"]) ** (d + 1) <= 1300:
             for nm in (False, True):
-                cases.append({"f": "tensor", "net": net, "order": d, "normalized": nm})
+                cases.append({"f": "adjacency_tensor", "net": net, "order": d, "normalized": nm})
     lists = ORDER_LISTS if full else rng.sample(ORDER_LISTS, 4)
     for ol in (rng.sample(lists, 4) if len(lists) > 4 and not full else lists):
         for resc in (False, True):
             if resc and 0 in ol:
                 continue  # rescaling the order-0 Laplacian by 0 is undefined (checked on `laplacian` itself)
             ws = [rng.choice(WEIGHT_POOL + ["0"]) for _ in ol]
-            cases.append({"f": "multiorder", "net": net, "orders": ol, "weights": ws, "rescale": resc})
+            cases.append({"f": "multiorder_laplacian", "net": net, "orders": ol, "weights": ws, "rescale": resc})
     if rng.random() < 0.3:
         ol = rng.choice(ORDER_LISTS)
-        cases.append({"f": "multiorder", "net": net, "orders": [x for x in ol if x], "rescale": rng.random() < 0.5,
+        cases.append({"f": "multiorder_laplacian", "net": net, "orders": [x for x in ol if x], "rescale": rng.random() < 0.5,
                       "weights": [rng.choice(WEIGHT_POOL) for _ in range(len([x for x in ol if x]) + rng.choice([1, 2]))]})
     if rng.random() < 0.2:
         ol = [x for x in rng.choice(ORDER_LISTS) if x]
-        cases.append({"f": "multiorder", "net": net, "orders": ol, "rescale": rng.random() < 0.5,
+        cases.append({"f": "multiorder_laplacian", "net": net, "orders": ol, "rescale": rng.random() < 0.5,
                       "weights": [rng.choice(["-1", "-1/2", "1", "2"]) for _ in ol]})
     # normalised Laplacian: the network as it is (isolated nodes => XGIError) and with its isolated nodes dropped
     used = {json.dumps(x) for _, ms in net["edges"] for x in ms}
@@ -603,13 +607,13 @@ def grid(rng, net, full=True):
     if any(not ms for _, ms in net["edges"]):
         return cases  # an empty edge has delta(e) = 0: the normalised Laplacian is undefined (0 * inf)
     for nt in ([net] if net2 == net else [net, net2]):
-        cases.append({"f": "normalized", "net": nt, "weighted": False, "weights": [None] * len(nt["edges"])})
+        cases.append({"f": "normalized_hypergraph_laplacian", "net": nt, "weighted": False, "weights": [None] * len(nt["edges"])})
         ws = [rng.choice(WEIGHT_POOL + [None, None, None]) for _ in nt["edges"]]
         if rng.random() < 0.05 and ws:
             ws[rng.randrange(len(ws))] = "0"
-        cases.append({"f": "normalized", "net": nt, "weighted": True, "weights": ws})
+        cases.append({"f": "normalized_hypergraph_laplacian", "net": nt, "weighted": True, "weights": ws})
         if rng.random() < 0.3:
-            cases.append({"f": "normalized", "net": nt, "weighted": True, "weights": [None] * len(nt["edges"])})
+            cases.append({"f": "normalized_hypergraph_laplacian", "net": nt, "weighted": True, "weights": [None] * len(nt["edges"])})
     return cases
 
 
@@ -663,7 +667,7 @@ def shrink(c, cls, budget=300):
         for i in range(len(E) - 1, -1, -1):
             cand = json.loads(json.dumps(c))
             del cand["net"]["edges"][i]
-            if "weights" in cand and cand["f"] == "normalized":
+            if "weights" in cand and cand["f"] == "normalized_hypergraph_laplacian":
                 del cand["weights"][i]
             budget -= 1
             if fails_with(cand, cls):
